@@ -217,7 +217,7 @@ for kind, rule in [("plain", "remove_empty_do (no properties)"), ("property", "r
 # ---------------------------------------------------------------------------------------- C17
 H("c17_call_matchers", "c17_matchers::c17_call_matchers", ["C17"],
   ["remove_assertions::AssertMatcher::matches", "remove_debug_profiling::should_remove_call"],
-  "call prefixes NAME, NAME.FIELD, NAME.x.FIELD, NAME['FIELD'], (NAME).FIELD with NAME in {assert, debug, other} and FIELD in {profilebegin, profileend, name}; `assert` / `debug` shadowed or not (all 4 combinations)",
+  "call prefixes NAME, NAME.FIELD, NAME.x.FIELD, NAME['FIELD'], (NAME).FIELD, x.NAME.FIELD, NAME().FIELD with NAME in {assert, debug, other} and FIELD in {profilebegin, profileend, name}; `assert` / `debug` shadowed or not (all 4 combinations)",
   mode="lean", timeout_s=900, mem_gb=16, replay="call_matchers",
   stubs=["IdentifierTracker::is_identifier_used -> solver-chosen answer for `assert` and for `debug` (the scope tracker, a Vec<HashSet<String>>, is the environment of the per-call decision)"],
   assumptions=["native replay runs the real rule end to end (darklua_core::process on in-memory resources) on `[local NAME = f] PREFIX(1)` and looks for the call in the output",
@@ -244,3 +244,20 @@ for n, tier in ((8, "quick"), (12, "thorough")):
 H("c12_sort_char_order", "c_scalar::c12_sort_char_order", ["C12"], ["rename_variables::rename_processor::sort_char"],
   "all triples of characters of the identifier alphabet [A-Za-z0-9_]", mode="full", timeout_s=600, replay="sort_char_order",
   assumptions=["sort_identifiers (the lexicographic lift) and the sort_by call are read, not executed"])
+
+# ---------------------------------------------------------------------------------------- deeper bounds (thorough tier)
+H("c02_fuse_tokens_deep", "c02_fuse::c02_fuse_tokens_deep", ["C01", "C18", "C12"], ["generator::utils::should_break_with_space"],
+  "every pair of well-formed tokens A (<= 4 printable ASCII bytes) and B (<= 5 bytes) that the grammar allows to be adjacent", tier="thorough",
+  mode="lean", timeout_s=1800, mem_gb=24, replay="fuse_tokens_deep",
+  assumptions=["adjacency relation reference::may_follow written from the Lua 5.1/Luau grammar", "R-LEX reference::munch models Lua 5.1 read_numeral / Luau readNumber maximal munch"])
+H("c02_fuse_dense_deep", "c02_fuse::c02_fuse_dense_deep", ["C02"],
+  ["generator::utils::should_break_with_space", "generator::utils::break_concat", "generator::utils::break_variable_arguments",
+   "generator::utils::break_minus", "generator::utils::break_equal", "generator::utils::break_long_string"],
+  "token pairs A (<= 4 bytes), B (<= 5 bytes); numbers as write_number spells them", tier="thorough", mode="lean", timeout_s=1800, mem_gb=24,
+  replay="fuse_dense_deep", assumptions=["the dense/readable writers call the break_* predicate named in each claim before the token it guards (call sites read, not executed)"])
+
+H("c13_quote_symbol_8", "c_scalar::c13_quote_symbol_8", ["C13"], ["generator::utils::get_quote_symbol"],
+  "every byte string of length 0..=8", tier="thorough", mode="full", timeout_s=600, replay="quote_symbol_8")
+
+# c13_quoted_form (write_quoted on 1-2 ASCII bytes with `escape` stubbed, harness/src/c_scalar.rs) is written but not registered:
+# 3.9 M symex steps (String pushes of symbolic chars through encode_utf8), out of memory at 24 GB.
